@@ -61,9 +61,10 @@ package appencryption
 //@   ensures [C10:kms-plaintext-wiped] forall i int :: 0 <= i && i < len(ret(DecryptKey, 1, 0)) ==> ret(DecryptKey, 1, 0)[i] == 0
 
 //@ func (*envelopeEncryption).intermediateKeyFromEKR
-//@   facet C10, C02
+//@   facet C10, C02, C09
+//@   ensures [C09:references-balanced] forall k *cachedCryptoKey :: owed(k) == old(owed(k))
 //@   requires wfE(e) && sk != nil && ekr != nil
-//@   modifies ext_calls, ms
+//@   modifies ext_calls, ms, owed
 //@   ensures msGrows(old(ms), ms)
 //@   ensures (err == nil) == (result != nil)
 //@   ensures err == nil ==> result.created == old(ekr.Created) && result.secret != nil
@@ -73,18 +74,24 @@ package appencryption
 
 // A loader is good for the ids its attr loaderFor says; for those, a key it returns is backed by a metastore row.
 //@ spec fn loaderFor(f ref, id string) bool
+//@ spec fn loaderExact(f ref) bool
 //@ funcspec keyLoader
 //@   names meta
-//@   modifies ms, ext_calls
+//@   modifies ms, ext_calls, owed
+//@   ensures [C09:loader-releases-what-it-takes] forall k *cachedCryptoKey :: owed(k) == old(owed(k))
 //@   ensures msGrows(old(ms), ms)
 //@   ensures (err == nil) == (result != nil)
 //@   ensures err == nil ==> result.secret != nil
 //@   ensures err == nil && loaderFor(this, meta.ID) ==> ms[meta.ID][result.created]
+//@   ensures err == nil && loaderExact(this) ==> result.created == meta.Created
 
 //@ iface keyCacher.GetOrLoad
 //@   names id, loader
 //@   param loader keyLoader
-//@   requires [C02,C14:loader-fits-id] loaderFor(loader, id.ID)
+//@   modifies owed
+//@   ghost ensures err == nil ==> owed(result) == old(owed(result)) + 1
+//@   ghost ensures forall k *cachedCryptoKey :: k != result || err != nil ==> owed(k) == old(owed(k))
+//@   requires [C02,C14:loader-fits-id] loaderFor(loader, id.ID) && (id.Created != 0 ==> loaderExact(loader))
 //@   modifies ext_calls, ms
 //@   ghost ensures ext_calls > old(ext_calls)
 //@   ensures msGrows(old(ms), ms)
@@ -94,6 +101,9 @@ package appencryption
 //@ iface keyCacher.GetOrLoadLatest
 //@   names id, loader
 //@   param loader keyLoader
+//@   modifies owed
+//@   ghost ensures err == nil ==> owed(result) == old(owed(result)) + 1
+//@   ghost ensures forall k *cachedCryptoKey :: k != result || err != nil ==> owed(k) == old(owed(k))
 //@   requires [C02,C14:loader-fits-id] loaderFor(loader, id)
 //@   modifies ext_calls, ms
 //@   ghost ensures ext_calls > old(ext_calls)
@@ -156,10 +166,11 @@ package appencryption
 //@ ghost var ext_calls int
 
 //@ func (*envelopeEncryption).DecryptDataRowRecord
-//@   facet C06, C07
+//@   facet C06, C07, C09
 //@   safety C07
 //@   opt no-frame
 //@   requires wfE(e)
+//@   ensures [C09:references-balanced] forall k *cachedCryptoKey :: owed(k) == old(owed(k))
 //@   ensures [C06:foreign-id-rejected-before-any-lookup] drr.Key != nil && drr.Key.ParentKeyMeta != nil && !validIK(e.partition, old(drr.Key.ParentKeyMeta.ID)) ==> err != nil && result == nil && ext_calls == old(ext_calls)
 
 //@ func (*SessionFactory).GetSession
@@ -199,22 +210,26 @@ package appencryption
 // ---- C07: no input record, metastore row or loader result makes the decrypt path panic ----
 
 //@ func (*envelopeEncryption).loadIntermediateKey
-//@   facet C07, C02, C14
+//@   facet C07, C02, C14, C09
+//@   ensures [C09:references-balanced] forall k *cachedCryptoKey :: owed(k) == old(owed(k))
 //@   safety C07
 //@   requires wfE(e)
-//@   modifies ext_calls, ms
+//@   modifies ext_calls, ms, owed
 //@   ensures [C02:ms-only-grows] msGrows(old(ms), ms)
 //@   ensures [C02:error-returns-nil] (err == nil) == (result != nil)
 //@   ensures [C02,C14:backed] err == nil ==> result.secret != nil && ms[meta.ID][result.created]
+//@   ensures [C02:key-carries-requested-stamp] err == nil ==> result.created == meta.Created
 
 //@ func (*envelopeEncryption).loadSystemKey
-//@   facet C07, C02, C14
+//@   facet C07, C02, C14, C09
+//@   ensures [C09:references-balanced] forall k *cachedCryptoKey :: owed(k) == old(owed(k))
 //@   safety C07
 //@   requires wfE(e)
-//@   modifies ext_calls, ms
+//@   modifies ext_calls, ms, owed
 //@   ensures [C02:ms-only-grows] msGrows(old(ms), ms)
 //@   ensures [C02:error-returns-nil] (err == nil) == (result != nil)
 //@   ensures [C02,C14:backed] err == nil ==> result.secret != nil && ms[meta.ID][result.created]
+//@   ensures [C02:key-carries-requested-stamp] err == nil ==> result.created == meta.Created
 
 //@ func decryptRow
 //@   facet C07
@@ -254,12 +269,14 @@ package appencryption
 //@   facet C02, C14
 //@   implements keyLoader
 //@   attr loaderFor(id string) = true
+//@   attr loaderExact() = true
 //@   requires wfE(e)
 
 //@ func (*envelopeEncryption).loadLatestOrCreateSystemKey
-//@   facet C02, C14
+//@   facet C02, C14, C09
+//@   ensures [C09:references-balanced] forall k *cachedCryptoKey :: owed(k) == old(owed(k))
 //@   requires wfE(e)
-//@   modifies ext_calls, ms
+//@   modifies ext_calls, ms, owed
 //@   ensures [C02:ms-only-grows] msGrows(old(ms), ms)
 //@   ensures [C02:error-returns-nil] (err == nil) == (result != nil)
 //@   ensures [C02,C14:backed] err == nil ==> result.secret != nil && (id == sysid(e.partition) ==> ms[id][result.created])
@@ -268,20 +285,23 @@ package appencryption
 //@   facet C02, C14
 //@   implements keyLoader
 //@   attr loaderFor(id string) = id == sysid(e.partition)
+//@   attr loaderExact() = false
 //@   requires wfE(e)
 
 //@ func (*envelopeEncryption).createIntermediateKey
-//@   facet C02, C14
+//@   facet C02, C14, C09
+//@   ensures [C09:references-balanced] forall k *cachedCryptoKey :: owed(k) == old(owed(k))
 //@   requires wfE(e)
-//@   modifies ext_calls, ms
+//@   modifies ext_calls, ms, owed
 //@   ensures [C02:ms-only-grows] msGrows(old(ms), ms)
 //@   ensures [C02:error-returns-nil] (err == nil) == (result != nil)
 //@   ensures [C02,C14:backed] err == nil ==> result.secret != nil && ms[ikidOf(e.partition)][result.created]
 
 //@ func (*envelopeEncryption).loadLatestOrCreateIntermediateKey
-//@   facet C02, C14
+//@   facet C02, C14, C09
+//@   ensures [C09:references-balanced] forall k *cachedCryptoKey :: owed(k) == old(owed(k))
 //@   requires wfE(e)
-//@   modifies ext_calls, ms
+//@   modifies ext_calls, ms, owed
 //@   ensures [C02:ms-only-grows] msGrows(old(ms), ms)
 //@   ensures [C02:error-returns-nil] (err == nil) == (result != nil)
 //@   ensures [C02,C14:backed] err == nil ==> result.secret != nil && (id == ikidOf(e.partition) ==> ms[id][result.created])
@@ -290,18 +310,21 @@ package appencryption
 //@   facet C02, C14
 //@   implements keyLoader
 //@   attr loaderFor(id string) = id == ikidOf(e.partition)
+//@   attr loaderExact() = false
 //@   requires wfE(e)
 
 //@ func (*envelopeEncryption).DecryptDataRowRecord$1
 //@   facet C02, C14
 //@   implements keyLoader
 //@   attr loaderFor(id string) = true
+//@   attr loaderExact() = true
 //@   requires wfE(e)
 
 //@ func (*envelopeEncryption).EncryptPayload
-//@   facet C02, C14
+//@   facet C02, C14, C09
 //@   opt no-frame
 //@   requires wfE(e)
+//@   ensures [C09:references-balanced] forall k *cachedCryptoKey :: owed(k) == old(owed(k))
 //@   ensures [C02:error-returns-nil] (err == nil) == (result != nil)
 //@   ensures [C02,C14:record-well-formed] err == nil ==> result.Key != nil && result.Key.ParentKeyMeta != nil && result.Key.ParentKeyMeta.ID == ikidOf(e.partition)
 //@   ensures [C02,C14:record-names-persisted-ik] err == nil ==> ms[ikidOf(e.partition)][result.Key.ParentKeyMeta.Created]
@@ -330,7 +353,11 @@ package appencryption
 // Set stores the entry; other entries may leave (eviction) but none is added or changed.
 //@ iface cache.Interface[string,appencryption.cacheEntry].Set
 //@   names key, value
-//@   modifies cdom(this), cval(this)
+//@   modifies cdom(this), cval(this), owed
+//@   ghost ensures forall k *cachedCryptoKey :: k != value.key && !(old(cdom(this)[key]) && old(cval(this)[key].key) == k) ==> owed(k) == old(owed(k))
+//@   ghost ensures old(cdom(this)[key]) && old(cval(this)[key].key) == value.key ==> owed(value.key) == old(owed(value.key))
+//@   ghost ensures !(old(cdom(this)[key]) && old(cval(this)[key].key) == value.key) ==> owed(value.key) == old(owed(value.key)) - 1
+//@   ghost ensures old(cdom(this)[key]) && old(cval(this)[key].key) != value.key ==> (forall o *cachedCryptoKey :: o == old(cval(this)[key].key) ==> owed(o) == old(owed(o)) + 1)
 //@   ensures cdom(this)[key] && cval(this)[key] == value
 //@   ensures forall k string :: k != key && cdom(this)[k] ==> old(cdom(this))[k] && cval(this)[k] == old(cval(this))[k]
 
@@ -361,25 +388,30 @@ package appencryption
 //@   invariant [wired] this.keys != nil && this.latest != nil && this.policy != nil
 //@   invariant [entries-well-formed] forall k string :: cdom(this.keys)[k] ==> wfCK(cval(this.keys)[k].key) && valid(cval(this.keys)[k].key) && valid(cval(this.keys)[k].key.CryptoKey)
 //@   invariant [entries-backed] forall id string, c int64 :: cdom(this.keys)[ck(id, c)] ==> ms[id][cval(this.keys)[ck(id, c)].key.CryptoKey.created]
+//@   invariant [entries-filed-under-their-stamp] forall id string, c int64 :: cdom(this.keys)[ck(id, c)] ==> cval(this.keys)[ck(id, c)].key.CryptoKey.created == c
 //@   invariant [latest-alias-keeps-id] forall id string :: ck(id, 0) in this.latest ==> this.latest[ck(id, 0)].ID == id
 //@ immutable (keyCache).keys, (keyCache).latest, (keyCache).policy
 
 //@ func (*keyCache).GetOrLoad
-//@   facet C02, C14, C07, C08
+//@   facet C09, C02, C14, C07, C08
 //@   safety C07
 //@   opt no-frame
+//@   ensures [C09:returns-exactly-one-reference] err == nil ==> owed(result) == old(owed(result)) + 1
+//@   ensures [C09:no-other-reference-moves] forall k *cachedCryptoKey :: k != result || err != nil ==> owed(k) == old(owed(k))
 //@   param loader keyLoader
 //@   requires c != nil && c.rw == 0 && loader != nil
-//@   requires loaderFor(loader, id.ID)
+//@   requires loaderFor(loader, id.ID) && (id.Created != 0 ==> loaderExact(loader))
 //@   ensures [C08:lock-released] c.rw == 0
 //@   ensures [C02:ms-only-grows] msGrows(old(ms), ms)
 //@   ensures [C02:error-returns-nil] (err == nil) == (result != nil)
 //@   ensures [C02,C14:cache-returns-backed-key] err == nil ==> wfCK(result) && ms[id.ID][result.CryptoKey.created]
 
 //@ func (*keyCache).GetOrLoadLatest
-//@   facet C02, C14, C07, C08
+//@   facet C09, C02, C14, C07, C08
 //@   safety C07
 //@   opt no-frame
+//@   ensures [C09:returns-exactly-one-reference] err == nil ==> owed(result) == old(owed(result)) + 1
+//@   ensures [C09:no-other-reference-moves] forall k *cachedCryptoKey :: k != result || err != nil ==> owed(k) == old(owed(k))
 //@   param loader keyLoader
 //@   requires c != nil && c.rw == 0 && loader != nil
 //@   requires loaderFor(loader, id)
@@ -389,9 +421,11 @@ package appencryption
 //@   ensures [C02,C14:cache-returns-backed-key] err == nil ==> wfCK(result) && ms[id][result.CryptoKey.created]
 
 //@ func (neverCache).GetOrLoad
-//@   facet C02, C14, C07
+//@   facet C09, C02, C14, C07
 //@   safety C07
 //@   opt no-frame
+//@   ensures [C09:returns-exactly-one-reference] err == nil ==> owed(result) == old(owed(result)) + 1
+//@   ensures [C09:no-other-reference-moves] forall k *cachedCryptoKey :: k != result || err != nil ==> owed(k) == old(owed(k))
 //@   param loader keyLoader
 //@   requires loader != nil && loaderFor(loader, id.ID)
 //@   ensures [C02:ms-only-grows] msGrows(old(ms), ms)
@@ -399,9 +433,11 @@ package appencryption
 //@   ensures [C02,C14:cache-returns-backed-key] err == nil ==> wfCK(result) && ms[id.ID][result.CryptoKey.created]
 
 //@ func (neverCache).GetOrLoadLatest
-//@   facet C02, C14, C07
+//@   facet C09, C02, C14, C07
 //@   safety C07
 //@   opt no-frame
+//@   ensures [C09:returns-exactly-one-reference] err == nil ==> owed(result) == old(owed(result)) + 1
+//@   ensures [C09:no-other-reference-moves] forall k *cachedCryptoKey :: k != result || err != nil ==> owed(k) == old(owed(k))
 //@   param loader keyLoader
 //@   requires loader != nil && loaderFor(loader, id)
 //@   ensures [C02:ms-only-grows] msGrows(old(ms), ms)
@@ -412,6 +448,30 @@ package appencryption
 // holds it (whose entry owns a reference, so refs >= 1 and the key cannot be destroyed), or a reference the caller owns ----
 
 //@ func (*cachedCryptoKey).increment
-//@   facet C08
+//@   facet C08, C09
 //@   requires [C08:increment-needs-pinned-ref] heldlocks >= 1
 //@   requires c != nil && c.refs != nil
+//@   modifies owed(c)
+//@   ghost ensures owed(c) == old(owed(c)) + 1
+
+// =====================================================================================================
+// C09 / C08: the reference ledger. owed(k) = references on cached key k that the running call chain owns
+// and must give back (Close) or hand to its caller. The cache's own reference is not in owed.
+// Leaf functions move references (ghost ensures: assumed by callers); every other function is checked.
+// =====================================================================================================
+
+//@ ghost field owed(*cachedCryptoKey) int
+//@ spec fn owedSame(a map[ref]int, b map[ref]int) bool = forall k ref :: a[k] == b[k]
+
+//@ func (*cachedCryptoKey).Close
+//@   facet C09, C08
+//@   safety C07
+//@   requires c != nil && c.refs != nil && c.CryptoKey != nil
+//@   modifies owed(c)
+//@   ghost ensures owed(c) == old(owed(c)) - 1
+
+//@ func newCachedCryptoKey
+//@   facet C09, C08
+//@   ensures result != nil && fresh(result) && result.CryptoKey == k && result.refs != nil
+//@   ghost ensures owed(result) == old(owed(result)) + 1
+//@   modifies owed(result)
